@@ -138,13 +138,17 @@ def ensure_native():
     return dst
 
 
-def native_call(mode, rows, cwd=None, timeout=300):
-    """rows: list of lists of bytes/str fields -> list of lists of str fields (hex where the harness says so)."""
+def native_call(mode, rows, cwd=None, timeout=300, memcheck=False):
+    """rows: list of lists of bytes/str fields -> list of lists of str fields (hex where the harness says so).
+    With `memcheck` the harness runs under valgrind memcheck; an error report makes the call fail with rc 99."""
     exe = ensure_native()
     inp = []
     for r in rows:
         inp.append('\t'.join(f.hex() if isinstance(f, (bytes, bytearray)) else str(f) for f in r))
-    p = subprocess.run([exe, mode], input=('\n'.join(inp) + '\n').encode(), stdout=subprocess.PIPE, stderr=subprocess.PIPE,
+    argv = [exe, mode]
+    if memcheck:
+        argv = ['valgrind', '-q', '--leak-check=no', '--error-exitcode=99'] + argv
+    p = subprocess.run(argv, input=('\n'.join(inp) + '\n').encode(), stdout=subprocess.PIPE, stderr=subprocess.PIPE,
                        cwd=cwd, timeout=timeout, env=base_env())
     if p.returncode != 0:
         return None, p.returncode, p.stderr.decode('utf-8', 'replace')
